@@ -1352,9 +1352,33 @@ class BiGen:
         self.layers.append([head])
         return head
 
+    def derived(self):
+        """A plain derived predicate over a structured extensional one (copy, or filtered by a join), so that built-in
+        bodies also aggregate over derived relations of a lower stratum."""
+        r = self.rng
+        cands = [p for p in self.sig if any(not is_scalar(t) for t in self.sig[p])]
+        plainp = [p for p in self.sig if len(self.sig[p]) == 2 and all(is_scalar(t) for t in self.sig[p])]
+        if not cands:
+            return
+        e = r.choice(cands)
+        d = self.new_pred(self.sig[e])
+        vs = [dc.var(i + 1) for i in range(len(self.sig[e]))]
+        body = [["atom", dc.atom(e, *vs)]]
+        same_key = [p for p in plainp if self.sig[p][0] == self.sig[e][0]]
+        if same_key and r.random() < 0.5:
+            body.append(["atom", dc.atom(r.choice(same_key), vs[0], ["wild"])])
+        self.clauses.append(dc.clause(dc.atom(d, *vs), body))
+        others = [p for p in cands if p != e and self.sig[p] == self.sig[e]]
+        if others and r.random() < 0.5:
+            self.clauses.append(dc.clause(dc.atom(d, *vs), [["atom", dc.atom(r.choice(others), *vs)]]))
+        self.layers.append([d])
+        self.features.add("bi-over-derived")
+
     def program(self):
         r = self.rng
         self.base()
+        if r.random() < 0.35:
+            self.derived()
         lower = list(self.sig)
         aggs = []
         for _ in range(r.choice([1, 2, 2, 3])):
